@@ -108,6 +108,8 @@ def _judge_holes(ctx):
         name = R.NAMES.get(e["type"], e["type"])
         if R.payload(data, e) != r["payload"]:
             return [("payload-changed", f"{name}: stored bytes differ from the original block")]
+        if r["comment"] is None:   # the block an accepted request just stored: its comment is not at issue here
+            r = dict(r, comment=e["comment"])
         if (e["format"], e["comment"], e["ctime"], e["mtime"]) != (r["format"], r["comment"], r["ctime"], r["mtime"]):
             return [("metadata-changed", f"{name}: format / comment / dates {(e['format'], e['comment'], e['ctime'], e['mtime'])} "
                                          f"vs {(r['format'], r['comment'], r['ctime'], r['mtime'])}")]
